@@ -869,6 +869,20 @@ class IntDom:
             return IPoly(ip_add(x.t, {(): -(1 << x.w)}), x.lo - (1 << x.w), x.hi - (1 << x.w), x.w, True)
         raise Unsupported("%s of a value whose sign bit is not determined (interval [%d,%d]); split the harness input by sign" % (what, x.lo, x.hi))
 
+    def _opaque_bitop(self, op, a, b):
+        """bit-wise combination of two symbolic words: not a polynomial in the operands.  It becomes a fresh atom with a rigorous range (and <= both,
+        or / xor < 2^bits) - range obligations stay sound; any congruence claim that depends on it fails (no identity can mention the atom), which is
+        the right verdict for code that branches or selects on such a value.  The unchanged library has no such operation on the analysed paths."""
+        if not (isinstance(a, IPoly) and isinstance(b, IPoly)) or a.lo < 0 or b.lo < 0:
+            raise Unsupported("%s of values that are not non-negative words" % op)
+        if op == "bvand":
+            hi = min(a.hi, b.hi)
+        else:
+            hi = (1 << max(a.hi.bit_length(), b.hi.bit_length())) - 1
+        i = self.new_atom("%s_%d" % (op, len(self.names)), 0, hi)
+        self.defs[i] = ("opaque", {}, 0)
+        return IPoly({(i,): 1}, 0, hi, a.w)
+
     def _fresh_switch(self):
         i = self.new_atom("sw_%d" % len(self.names), 0, 1)
         self.defs[i] = ("switch", {}, 0)
@@ -1004,7 +1018,7 @@ class IntDom:
                         _, h = self._hi(xu, sh)
                         part = self._low(IPoly(h.t, h.lo, h.hi, x.w), body.bit_length(), x.w)
                         return IPoly(ip_scale(part.t, 1 << sh), part.lo << sh, part.hi << sh, x.w)
-            raise Unsupported("bvand that is not a contiguous-bit mask")
+            return self._opaque_bitop("bvand", a, b)
         if op == "bvlshr":
             a, b = args
             a = self._unsigned(a, "bvlshr")
@@ -1151,6 +1165,12 @@ class IntDom:
             if c[0] == "cmp":
                 inv = {"lt": "ge", "le": "gt", "gt": "le", "ge": "lt"}[c[1]]
                 return ("cmp", inv, c[2], c[3])
+        if op in ("bvor", "bvxor") and len(args) == 2 and all(isinstance(x, IPoly) for x in args):
+            if op == "bvor":
+                for x, y in ((args[0], args[1]), (args[1], args[0])):
+                    if self._const(y) == 0:
+                        return x
+            return self._opaque_bitop(op, args[0], args[1])
         raise Unsupported("operation %s in the integer domain" % op)
 
 
